@@ -312,9 +312,10 @@ class C07(CoreProp):
             'deregistration, also from callbacks; persistent and non-persistent contexts; non-trivial = distinct script with >= 2 context calls succeeding')
 
 class C08(CoreProp):
+    scenario = staticmethod(GC.gen_pill_case)
     pid = 'C08'; props_file = 'Props_C08'; focus = {'ps', 'pill', 'batch'}
     proj = Proj(rets=('pill',), cb=cb_ps, keep=('state',))
-    rule = ('corpus + random programs with several senders, batching settings, pause/resume, poison pills, loop stop/restart; payload ids '
+    rule = ('corpus + random programs with several senders, batching settings, pause/resume, poison pills, loop stop/restart + pill scenarios (pill and quit from one callback, recipient subscribed to system topics, messages before and after the pill); payload ids '
             'increase with send order so that per-recipient order is checkable; non-trivial = distinct script delivering >= 3 messages')
     def monitors(self, case, ctr): return mon_messages(case, ctr)
     def nontrivial(self, case, ctr):
